@@ -155,3 +155,86 @@ def settle_spec(pack, r, declared, spec, subs=None, defs=None, cplx=(), pre=()):
         return
     pack.add(r)
     pack.undecided_obl(r['name'], r.get('note', ''))
+
+
+def status_independence(pack, pid, ss, model_name, file, replay=None):
+    """Structural obligations on the live model object: no constant service that a residual equation of the model reads (directly or
+    through other constant services) depends on the connection status ``u`` -- events change ``u`` at run time, constants are
+    evaluated once, so such a service would keep the status the device was initialised with.  One obligation per service read."""
+    import re
+    from andes.core.service import ConstService
+    from pyvc.exprvc import _structural
+    model = ss.__dict__[model_name]
+
+    def tok(s):
+        return set(re.findall(r'[A-Za-z_][A-Za-z_0-9]*', s or ''))
+    svc = {k: v for k, v in model.services.items() if isinstance(v, ConstService) and v.v_str}
+    deps = {k: tok(v.v_str) for k, v in svc.items()}
+
+    def closure(name, seen=None):
+        seen = seen or set()
+        out = set()
+        for d in deps.get(name, ()):
+            out.add(d)
+            if d in svc and d not in seen:
+                out |= closure(d, seen | {name})
+        return out
+    read = set()
+    for var in model.cache.all_vars.values():
+        read |= tok(var.e_str) & set(svc)
+    n = 0
+    for name in sorted(read):
+        n += 1
+        ok = 'u' not in closure(name)
+        oname = '%s/%s:%s.%s.v_str/structural:constant-read-by-a-residual-does-not-depend-on-the-connection-status-u' % (pid, file, model_name, name)
+        r = _structural(oname, ok, 'v_str = %r (transitively reads %s)' % (svc[name].v_str, sorted(closure(name) - set(svc))[:8]))
+        pack.add(r)
+        if not ok:
+            conf = replay() if replay is not None else None
+            payload = {'solver': 'structural', 'service': name, 'v_str': svc[name].v_str, 'function': '%s.__init__' % model_name, 'file': file}
+            if conf:
+                payload['native'] = conf
+            if conf and conf.get('confirmed'):
+                pack.violation(oname, payload)
+            else:
+                pack.violation(oname, payload, no_input=True)
+    pack.add_function('%s.__init__ (constant services read by residuals: %s)' % (model_name, ', '.join(sorted(read))), file, obligations=n)
+    return n
+
+
+def replay_line_closing():
+    """native: a line that is out of service at the start and closed by a Toggle at 0.5 s carries, right after the event, the power the
+    pi-model gives for the bus voltages of that instant (kundur_full, no other event)"""
+    import contextlib
+    import io
+    import logging
+    import numpy as np
+    import andes
+    logging.getLogger('andes').setLevel(logging.CRITICAL)
+    with contextlib.redirect_stdout(io.StringIO()), contextlib.redirect_stderr(io.StringIO()):
+        ss = andes.load(andes.get_case('kundur/kundur_full.xlsx'), default_config=True, no_output=True, setup=False)
+        for tg in list(ss.Toggle.idx.v):
+            ss.Toggle.alter('u', tg, 0)
+        dev = ss.Line.idx.v[8]
+        ss.Line.alter('u', dev, 0)
+        ss.add('Toggle', dict(model='Line', dev=dev, t=0.5))
+        ss.setup()
+        ss.PFlow.run()
+        ss.TDS.config.tf = 0.6
+        ok = ss.TDS.run()
+    k = ss.Line.idx2uid(dev)
+    L = ss.Line
+    if not ok or L.u.v[k] != 1:
+        return {'confirmed': True, 'inputs': {'case': 'kundur_full', 'line': dev, 'sequence': 'u = 0 at the start, Toggle at 0.5 s, run to 0.6 s'},
+                'observed': 'run failed or the line is still out of service (u = %r)' % float(L.u.v[k]), 'native_cmd': 'contracts/specutil.py replay_line_closing'}
+    v1, v2, a1, a2 = [float(x.v[k]) for x in (L.v1, L.v2, L.a1, L.a2)]
+    y = 1.0 / complex(L.r.v[k] + 1e-8, L.x.v[k] + 1e-8)
+    tap, phi = float(L.tap.v[k]), float(L.phi.v[k])
+    gh = float(L.g1.v[k] + 0.5 * L.g.v[k])
+    want = v1 ** 2 * (gh + y.real) / tap ** 2 - v1 * v2 * (y.real * np.cos(a1 - a2 - phi) + y.imag * np.sin(a1 - a2 - phi)) / tap
+    got = float(L.a1.e[k])
+    if abs(got - want) > 1e-6 * max(1.0, abs(want)):
+        return {'confirmed': True, 'inputs': {'case': 'kundur_full', 'line': dev, 'sequence': 'u = 0 at the start, Toggle at 0.5 s, run to 0.6 s'},
+                'observed': 'active power the model injects at the from-bus of the closed line: %.6f, pi-model with the line data at the same voltages: %.6f' % (got, want),
+                'native_cmd': 'contracts/specutil.py replay_line_closing'}
+    return {'confirmed': False, 'tried': 1}
